@@ -116,6 +116,17 @@ type c02Job struct {
 // c02Execute runs the jobs on the real client: grouped by channel capacity (a package variable of defs),
 // in parallel except for the scenarios that send SIGUSR1 (process wide).
 func c02Execute(g *Gen, jobs []*c02Job) {
+	c02RunJobs(jobs)
+	for _, j := range jobs {
+		s, z := c02EncodeCase(j.scn, j.res)
+		g.Case(j.kind, s, z)
+		g.Count(j.tag)
+		c02CountTrace(g, j.res.Trace)
+	}
+}
+
+// c02RunJobs fills in the result of every job.
+func c02RunJobs(jobs []*c02Job) {
 	caps := map[int][]*c02Job{}
 	var order []int
 	for _, j := range jobs {
@@ -152,12 +163,6 @@ func c02Execute(g *Gen, jobs []*c02Job) {
 		wg.Wait()
 		for _, j := range seq {
 			j.res = c02RunScenario(j.scn)
-		}
-		for _, j := range caps[cp] {
-			s, z := c02EncodeCase(j.scn, j.res)
-			g.Case(j.kind, s, z)
-			g.Count(j.tag)
-			c02CountTrace(g, j.res.Trace)
 		}
 	}
 }
@@ -224,7 +229,7 @@ func c02Gen(g *Gen) {
 	}
 
 	// ---- family A: every position of one fault in a story of n chunks x every stop position ----
-	maxN := g.Pick(5, 6)
+	maxN := g.Pick(5, 7)
 	for n := 1; n <= maxN; n++ {
 		type fault struct {
 			op  string
@@ -266,106 +271,15 @@ func c02Gen(g *Gen) {
 	}
 
 	// ---- family B: random longer scripts ----
-	nB := g.Pick(250, 3000)
+	nB := g.Pick(250, 20000)
 	for i := 0; i < nB; i++ {
-		r := g.R
-		n := r.Range(1, g.Pick(14, 40))
-		s := &c02Scn{N: n, Cap: r.PickInt([]int{1, 2, 2, 3, 10}), Stop: -1, StopRev: r.Intn(2), StopGap: r.Intn(4)}
-		density := r.PickInt([]int{0, 8, 5, 3})
-		nops := 3 * n
-		idMode := r.Chance(3, 4) // a connection either answers with ids or with empty ids, not both
-		for j := 0; j < nops; j++ {
-			pick := func(faults []int) int {
-				if density > 0 && r.Intn(density) == 0 {
-					return r.PickInt(faults)
-				}
-				return 0
-			}
-			s.Conn = append(s.Conn, pick([]int{cConnErr, cConnErr, cConnBlockOK, cConnBlockErr}))
-			s.Send = append(s.Send, pick([]int{cSendErr, cSendBlock}))
-			if idMode {
-				s.Ack = append(s.Ack, pick([]int{cAckErr, cAckBlock, cAckUnknown, cAckNewest, cAckDup, cAckGarbled}))
-			} else {
-				a := pick([]int{cAckErr, cAckBlock})
-				if a == 0 {
-					a = cAckEmpty
-				}
-				s.Ack = append(s.Ack, a)
-			}
-			s.Ping = append(s.Ping, pick([]int{cSendErr, cSendBlock}))
-		}
-		if r.Chance(1, 2) {
-			s.Stop = r.Range(0, 6*n+10)
-		}
-		switch r.Intn(4) {
-		case 0: // all offered at the start
-		case 1: // trickled in by trace length
-			at := 0
-			for j := 0; j < n; j++ {
-				at += r.Range(0, 5)
-				s.Push = append(s.Push, at)
-			}
-		case 2: // some chunks wait for an idle period (a ping)
-			pings := 0
-			for j := 0; j < n; j++ {
-				if r.Chance(1, 4) && pings < 3 {
-					pings++
-					s.Push = append(s.Push, -pings)
-				} else if pings > 0 {
-					s.Push = append(s.Push, -pings)
-				} else {
-					s.Push = append(s.Push, 0)
-				}
-			}
-		case 3:
-			for j := 0; j < n; j++ {
-				s.Push = append(s.Push, r.Range(0, 4*n))
-			}
-			for j := 1; j < n; j++ {
-				if s.Push[j] < s.Push[j-1] {
-					s.Push[j] = s.Push[j-1]
-				}
-			}
-		}
-		if r.Chance(1, 5) {
-			s.Flavor = 1
-		}
-		add(1, "B:random", s)
+		add(1, "B:random", c02RandomScn(g.R, g.Pick(14, 40)))
 	}
 
 	// ---- family C: soft reconnects: max session age, SIGUSR1 ----
-	nC := g.Pick(60, 600)
+	nC := g.Pick(60, 3000)
 	for i := 0; i < nC; i++ {
-		r := g.R
-		n := r.Range(1, 10)
-		s := &c02Scn{N: n, Cap: r.PickInt([]int{1, 2, 10}), Stop: -1, StopRev: r.Intn(2), StopGap: r.Intn(3)}
-		at := 0
-		for j := 0; j < n; j++ {
-			at += r.Range(0, 6)
-			s.Push = append(s.Push, at)
-		}
-		for j := 0; j < 3*n; j++ {
-			a := 0
-			if r.Chance(1, 6) {
-				a = r.PickInt([]int{cAckUnknown, cAckBlock, cAckErr, cAckNewest, cAckGarbled})
-			}
-			s.Ack = append(s.Ack, a)
-		}
-		tag := "C:maxage"
-		if i%2 == 0 {
-			s.MaxAge = r.Range(1, 8)
-		} else {
-			tag = "C:sigusr1"
-			for j := r.Range(1, 3); j > 0; j-- {
-				s.Sig = append(s.Sig, r.Range(0, 5*n+6))
-			}
-			if r.Chance(1, 3) {
-				s.MaxAge = r.Range(2, 10)
-			}
-		}
-		if r.Chance(1, 3) {
-			s.Stop = r.Range(0, 6*n+10)
-		}
+		s, tag := c02SoftScn(g.R, i%2 == 0)
 		add(1, tag, s)
 	}
 
@@ -404,4 +318,110 @@ func c02Gen(g *Gen) {
 	}
 
 	c02Execute(g, jobs)
+
+	if g.Thorough() {
+		if wd, err := os.Getwd(); err == nil {
+			g.Count(c02RaceEvidence(g, wd))
+		}
+	}
+}
+
+// c02RandomScn: a random script: faults of every kind with a random density, random stop, random arrival of the chunks.
+func c02RandomScn(r *Rng, maxN int) *c02Scn {
+	n := r.Range(1, maxN)
+	s := &c02Scn{N: n, Cap: r.PickInt([]int{1, 2, 2, 3, 10}), Stop: -1, StopRev: r.Intn(2), StopGap: r.Intn(4)}
+	density := r.PickInt([]int{0, 8, 5, 3})
+	nops := 3 * n
+	idMode := r.Chance(3, 4) // a connection either answers with ids or with empty ids, not both
+	for j := 0; j < nops; j++ {
+		pick := func(faults []int) int {
+			if density > 0 && r.Intn(density) == 0 {
+				return r.PickInt(faults)
+			}
+			return 0
+		}
+		s.Conn = append(s.Conn, pick([]int{cConnErr, cConnErr, cConnBlockOK, cConnBlockErr}))
+		s.Send = append(s.Send, pick([]int{cSendErr, cSendBlock}))
+		if idMode {
+			s.Ack = append(s.Ack, pick([]int{cAckErr, cAckBlock, cAckUnknown, cAckNewest, cAckDup, cAckGarbled}))
+		} else {
+			a := pick([]int{cAckErr, cAckBlock})
+			if a == 0 {
+				a = cAckEmpty
+			}
+			s.Ack = append(s.Ack, a)
+		}
+		s.Ping = append(s.Ping, pick([]int{cSendErr, cSendBlock}))
+	}
+	if r.Chance(1, 2) {
+		s.Stop = r.Range(0, 6*n+10)
+	}
+	switch r.Intn(4) {
+	case 0: // all offered at the start
+	case 1: // trickled in by trace length
+		at := 0
+		for j := 0; j < n; j++ {
+			at += r.Range(0, 5)
+			s.Push = append(s.Push, at)
+		}
+	case 2: // some chunks wait for an idle period (a ping)
+		pings := 0
+		for j := 0; j < n; j++ {
+			if r.Chance(1, 4) && pings < 3 {
+				pings++
+				s.Push = append(s.Push, -pings)
+			} else if pings > 0 {
+				s.Push = append(s.Push, -pings)
+			} else {
+				s.Push = append(s.Push, 0)
+			}
+		}
+	case 3:
+		for j := 0; j < n; j++ {
+			s.Push = append(s.Push, r.Range(0, 4*n))
+		}
+		for j := 1; j < n; j++ {
+			if s.Push[j] < s.Push[j-1] {
+				s.Push[j] = s.Push[j-1]
+			}
+		}
+	}
+	if r.Chance(1, 5) {
+		s.Flavor = 1
+	}
+	return s
+}
+
+// c02SoftScn: scenarios around soft reconnects (max session age or SIGUSR1).
+func c02SoftScn(r *Rng, byAge bool) (*c02Scn, string) {
+	n := r.Range(1, 10)
+	s := &c02Scn{N: n, Cap: r.PickInt([]int{1, 2, 10}), Stop: -1, StopRev: r.Intn(2), StopGap: r.Intn(3)}
+	at := 0
+	for j := 0; j < n; j++ {
+		at += r.Range(0, 6)
+		s.Push = append(s.Push, at)
+	}
+	for j := 0; j < 3*n; j++ {
+		a := 0
+		if r.Chance(1, 6) {
+			a = r.PickInt([]int{cAckUnknown, cAckBlock, cAckErr, cAckNewest, cAckGarbled})
+		}
+		s.Ack = append(s.Ack, a)
+	}
+	tag := "C:maxage"
+	if byAge {
+		s.MaxAge = r.Range(1, 8)
+	} else {
+		tag = "C:sigusr1"
+		for j := r.Range(1, 3); j > 0; j-- {
+			s.Sig = append(s.Sig, r.Range(0, 5*n+6))
+		}
+		if r.Chance(1, 3) {
+			s.MaxAge = r.Range(2, 10)
+		}
+	}
+	if r.Chance(1, 3) {
+		s.Stop = r.Range(0, 6*n+10)
+	}
+	return s, tag
 }
